@@ -261,6 +261,12 @@ def w_buffer_reuse(ctx, rng, i):
     ctx.case(("reuse", n_samp, nbits, otype), sample=dict(n_samp=n_samp, n=nbits, otype=otype, calls=8) if i < 2 else None)
 
 
+def FORM_TWINS():
+    import opticomlib.devices as dv
+    import opticomlib.utils as ut
+    return [(dv, ["ADC"]), (ut, ["shortest_int"])]
+
+
 WORKLOADS = [
     Workload("adc", w_adc, 1500, 60000, budget=120),
     Workload("adc_errors", w_adc_errors, 5, 50),
